@@ -311,7 +311,9 @@ def run_and_validate(chk, behaviours, label):
             return None
     elif len(events) != len(emitting):
         raise vlib.MachineryError("driver wrote %d events for %d commands (%s)" % (len(events), len(emitting), label))
-    silent = [e for e in events if e["op"] == "req" and e.get("status") == "NONE"]
+    # (an over-cap STORE whose body is withheld and that gets no answer is evidence for C28, not a machinery problem)
+    silent = [e for e in events if e["op"] == "req" and e.get("status") == "NONE"
+              and not (e.get("withheld") and e["cmd"] == "STORE" and (e.get("lenkind") == "huge" or e.get("len", 0) > e.get("cap", 0)))]
     if silent:
         raise vlib.MachineryError("the daemon did not answer %d request(s) within the driver's time limit (%s): %s" % (len(silent), label, json.dumps(silent[0])[:600]))
     res = vlib.validate("ControlTrace", trace)
